@@ -202,6 +202,8 @@ PROPS['C07'] = dict(
     title='linear_hash is the rate-8 capacity-4 sponge for every input length',
     jobs=[J('h_poseidon', 'fast5', 1, 1, only='c07.lengths', wq=8, wt=16, args=['--enumerate', '--level', '0'], tiers=['quick'], tag='enum'),
           J('h_poseidon', 'fast5', 1, 1, only='c07.lengths', wq=8, wt=16, args=['--enumerate', '--level', '1'], tiers=['thorough'], tag='enum'),
+          J('h_poseidon', 'fast2', 1, 1, only='c07.huge', wq=1, wt=4, args=['--enumerate', '--level', '0'], tiers=['quick'], tag='huge'),
+          J('h_poseidon', 'fast2', 1, 1, only='c07.huge', wq=1, wt=4, args=['--enumerate', '--level', '1'], tiers=['thorough'], tag='huge'),
           J('h_poseidon', 'fast5', 40_000, 4_000_000, only='c07.random', wq=8, wt=16, tag='rnd'),
           J('h_poseidon', 'fast2', 10_000, 1_000_000, only='c07.random', wq=4, wt=8, tag='rnd', class_prefix='avx2-build:')],
     rule='EVERY length 0..200 enumerated (4 contents each, thorough 16) plus rapidcheck-random lengths up to 5000 with explicit boundary-class prefixes; contents mix canonical / non-canonical / edge representations. '
